@@ -89,7 +89,7 @@ Qed.
 Section Total.
 Variables (h0 : heap) (n0 : N).
 Hypothesis Hwf : wf_heap h0 n0.
-Hypothesis Hk : wf_kindsb h0 = true.
+Hypothesis Hk : wf_kinds h0.
 
 Definition vok (v : hv) : Prop :=
   refs_ok h0 (refs v) = true /\ slices_ok h0 (inline_slices v) = true /\ shape_ok v = true.
@@ -122,10 +122,7 @@ Qed.
 
 Lemma obj_ok a o : hget h0 a = Some o ->
   refs_ok h0 (obj_refs o) = true /\ slices_ok h0 (obj_islices o) = true /\ obj_shape_ok o = true.
-Proof.
-  intro H. apply hget_In in H. unfold wf_kindsb in Hk. rewrite forallb_forall in Hk. apply Hk in H.
-  simpl in H. apply andb_true_iff in H as [H H3]. apply andb_true_iff in H as [H1 H2]. auto.
-Qed.
+Proof. apply Hk. Qed.
 
 Lemma ref_target k b rs : refs_ok h0 rs = true -> In (k, b) rs ->
   exists o, hget h0 b = Some o /\ obj_kind o = k.
@@ -242,6 +239,12 @@ Qed.
 
 End Total.
 
+Lemma wf_kindsb_ok h : wf_kindsb h = true -> wf_kinds h.
+Proof.
+  intros Hk a o H. apply hget_In in H. unfold wf_kindsb in Hk. rewrite forallb_forall in Hk. apply Hk in H.
+  simpl in H. apply andb_true_iff in H as [H H3]. apply andb_true_iff in H as [H1 H2]. auto.
+Qed.
+
 (* total correctness of the fixed copier: under the decidable guard and the
    explicit fuel bound the copy returns *)
 Theorem deep_copy_succeeds_l : forall h n0 R D rk v fuel,
@@ -254,7 +257,7 @@ Proof.
   unfold c03_guard in G1. apply andb_true_iff in G1 as [G1 Gr]. apply andb_true_iff in G1 as [Gw _].
   apply wf_heapb_ok in Gw. apply wf_rootb_ok in Gr as (Hb & _ & _).
   unfold root_kindsb in G3. apply andb_true_iff in G3 as [G3 C]. apply andb_true_iff in G3 as [A B].
-  pose proof (copy_good h n0 Gw G2 fuel (init_cst h n0) v (inv_init h n0 Gw) Hb (conj A (conj B C))) as Hg.
+  pose proof (copy_good h n0 Gw (wf_kindsb_ok h G2) fuel (init_cst h n0) v (inv_init h n0 Gw) Hb (conj A (conj B C))) as Hg.
   unfold deep_copy in *. destruct (copy true fuel (init_cst h n0) v) as [[st' v']| | | |]; try discriminate.
   - eauto.
   - congruence.
